@@ -137,7 +137,15 @@ def phase2():
     p2 = os.path.join(OUT, "phase2.jsonl")
     done = set()
     if os.path.exists(p2):
-        done = {json.loads(l)["id"] for l in open(p2)}
+        recs = [json.loads(l) for l in open(p2)]
+        retry = os.environ.get("MUT_RETRY")  # e.g. HARNESS-ERROR: drop those records and run them again
+        if retry:
+            keep = [r for r in recs if r["verdict"] != retry]
+            with open(p2, "w") as f:
+                for r in keep:
+                    f.write(json.dumps(r) + "\n")
+            recs = keep
+        done = {r["id"] for r in recs}
     todo = [m for m in surv if m["id"] not in done and not logging_only(m)]
     only = os.environ.get("MUT_ONLY")
     if only:
